@@ -6,8 +6,8 @@
 // shutdownFunc, on an in-memory libp2p host (go-libp2p mocknet) with a real secp256k1 identity.  The driver plays
 // dkg.Run: it calls the step function / the shutdown function when the schedule says so, and, like Run's deferred
 // cancel + p2p shutdown, cancels the member's context and closes its host when one of them fails.
-// The faulty member runs a real sync.Server (so that honest clients get their answers; with "frej" it was given
-// another definition hash) and otherwise speaks the wire protocol by hand: it opens streams to honest servers and
+// The faulty member speaks the wire protocol by hand: its server answers every honest client with "ok" (with "frej":
+// with the error a member that was given another definition hash would send); it opens streams to honest servers and
 // writes MsgSync messages with whatever hash signature / version / step / shutdown flag the schedule says, reading
 // the server's response after each.  Nothing here knows an expected outcome.
 //
@@ -18,8 +18,10 @@
 //	{"ev":"Await","i"}               block until member i's pending call has returned (10 s: Hang)
 //	{"ev":"Crash","i"}               cancel i's context, wait for its pending call, close its host
 //	{"ev":"FOpen","s","to"} / {"ev":"FMsg","s","auth","step","shutdown"} / {"ev":"FClose","s"}
+//	{"ev":"Yield","ms"}              the driver idles (returns that happen meanwhile are logged before the next step)
 //
-// Trace events: Reset, the steps above as they were made (FMsg with the server's answer), the returns
+// Trace events: Reset, the steps above as they were made (FMsg before the message is written, then
+// {"ev":"FResp","s","to","resp"} with the server's answer), the returns
 // {"ev":"Started"|"Passed"|"Stopped","i","ok","err":class,"txt"}, and {"ev":"Cancel"} before the final clean-up.
 package dkgsync
 
@@ -315,8 +317,27 @@ func runOne(sid int, sched []drv.Step) (evs []drv.Step, hung bool) {
 				o := sha256.Sum256([]byte("the faulty member's own definition"))
 				h = o[:]
 			}
-			srv := dkgsync.NewServer(r.fhost, n-1, h, version.Version.Minor())
-			srv.Start(ctx)
+			_ = h
+			// The faulty member's server is written by hand: it answers every message of an honest client with "ok" (or,
+			// frej, with an error, as a member that was given another definition would) and keeps no state. A real
+			// sync.Server would track the honest members' steps, but nothing synchronises it with them here (its owner does
+			// not take part in the barriers), so it would refuse fast honest members for "jumping ahead".
+			r.fhost.SetStreamHandler(dkgsync.Protocols()[0], func(st network.Stream) {
+				defer st.Close()
+				for {
+					msg := new(pb.MsgSync)
+					if err := readSized(st, msg); err != nil {
+						return
+					}
+					resp := &pb.MsgSyncResponse{SyncTimestamp: msg.GetTimestamp()}
+					if frej {
+						resp.Error = "invalid definition hash signature"
+					}
+					if err := writeSized(st, resp); err != nil || msg.GetShutdown() {
+						return
+					}
+				}
+			})
 
 			continue
 		}
@@ -389,8 +410,11 @@ func runOne(sid int, sched []drv.Step) (evs []drv.Step, hung bool) {
 			ver, vervar := versionOf(auth, r.nmsg)
 			msg := &pb.MsgSync{Timestamp: timestamppb.Now(), HashSignature: sig, Shutdown: st["shutdown"] == true,
 				Version: ver, Nickname: "faulty", Step: int64(drv.Num(st["step"]))}
-			out := drv.Step{"ev": "FMsg", "s": s, "to": r.fto[s], "auth": auth, "step": drv.Num(st["step"]),
-				"shutdown": st["shutdown"] == true, "variant": sigvar + vervar}
+			// logged BEFORE the message is written: its effect at the server precedes the answer, and an honest member's
+			// goroutine may observe and log that effect before this goroutine has read the answer
+			r.emit(drv.Step{"ev": "FMsg", "s": s, "to": r.fto[s], "auth": auth, "step": drv.Num(st["step"]),
+				"shutdown": st["shutdown"] == true, "variant": sigvar + vervar})
+			out := drv.Step{"ev": "FResp", "s": s, "to": r.fto[s]}
 			_ = stream.SetDeadline(time.Now().Add(generous))
 			resp := new(pb.MsgSyncResponse)
 			if err := writeSized(stream, msg); err != nil {
@@ -401,6 +425,9 @@ func runOne(sid int, sched []drv.Step) (evs []drv.Step, hung bool) {
 				out["resp"], out["txt"] = classifyResp(resp.GetError()), resp.GetError()
 			}
 			r.emit(out)
+		case "Yield":
+			// the environment idles: whatever the members do meanwhile gets logged before the next step (no assertion)
+			time.Sleep(time.Duration(drv.Num(st["ms"])) * time.Millisecond)
 		case "FClose":
 			s := drv.Num(st["s"])
 			if stream, ok := r.fst[s]; ok {
